@@ -60,6 +60,45 @@ theorem equal_contexts_equal_results (cs : CState) (ti : Nat) (c1 c2 : Env) (fue
 
 /-! ### the Go code has nowhere else to keep state (regenerated from /repo) -/
 
+/-- the state an execution ends in, finished or failed -/
+def finalState {α} : EStateM.Result XErr ES α → ES
+  | .ok _ s => s
+  | .error _ s => s
+
+/-- `try { body; restore } catch e { restore; throw e }` always ends restored -/
+theorem restore_pattern {α} (body : XM α) (c : List (Nat × Nat)) (v : List (Nat × List V)) (k : List (Nat × Bytes)) (σ : ES) :
+    let restore : XM Unit := modify fun s => { s with cycle := c, changedV := v, changedC := k }
+    let r := (tryCatch (body >>= fun _ => restore) (fun e => restore >>= fun _ => throw e)).run σ
+    (finalState r).cycle = c ∧ (finalState r).changedV = v ∧ (finalState r).changedC = k := by
+  simp only [EStateM.run, tryCatch, tryCatchThe, MonadExceptOf.tryCatch, EStateM.tryCatch, EStateM.Backtrackable.save,
+    EStateM.Backtrackable.restore, EStateM.dummySave, EStateM.dummyRestore, bind, EStateM.bind, modify, modifyGet,
+    MonadStateOf.modifyGet, EStateM.modifyGet]
+  cases body σ <;> simp [finalState, throw, throwThe, MonadExceptOf.throw, EStateM.throw]
+
+/-- **Every execution ends as it began**: whatever the body does to the positions of `cycle` tags
+    and the memory of `ifchanged` — and whether it finishes or fails, at any point — the execution
+    hands this state back exactly as it found it; an execution nested inside another one (an
+    include) therefore cannot disturb the outer one's cycles either. -/
+theorem exec_leaves_no_state_behind (fuel ti : Nat) (ctx : Env) (σ : ES) :
+    (finalState ((executeTplUnbuffered T cfg g fuel ti ctx).run σ)).cycle = σ.cycle ∧
+    (finalState ((executeTplUnbuffered T cfg g fuel ti ctx).run σ)).changedV = σ.changedV ∧
+    (finalState ((executeTplUnbuffered T cfg g fuel ti ctx).run σ)).changedC = σ.changedC := by
+  cases fuel with
+  | zero =>
+    simp [executeTplUnbuffered, xerr, EStateM.run, throw, throwThe, MonadExceptOf.throw, EStateM.throw, finalState]
+  | succ n =>
+    rw [executeTplUnbuffered]
+    simp only [EStateM.run, bind, EStateM.bind, get, getThe, MonadStateOf.get, EStateM.get]
+    cases List.find? (fun kv => !identOk kv.fst) (Env.update g ctx) with
+    | some _ => simp [xerr, throw, throwThe, MonadExceptOf.throw, EStateM.throw, finalState]
+    | none =>
+      simp only []
+      cases List.find? (fun kv => (List.lookup kv.fst σ.cs.tpls[ti]!.exported).isSome) (Env.update g ctx) with
+      | some _ => simp [xerr, throw, throwThe, MonadExceptOf.throw, EStateM.throw, finalState]
+      | none =>
+        simp only [modify, modifyGet, MonadStateOf.modifyGet, EStateM.modifyGet]
+        exact restore_pattern _ σ.cycle σ.changedV σ.changedC _
+
 /-- no store reachable from an execution entry point targets the compiled
     template, the set, a package variable or the caller's context -/
 theorem gen_exec_writes_none : Gen.execWrites = [] := by decide
